@@ -283,6 +283,8 @@ def run(ctx):
     fringe.nonascii_case(ctx, 'translate vs match on letters outside ASCII')
     from props import glue
     glue.translate_lists(ctx)
+    from props import clauses
+    clauses.translate_clauses(ctx)
     return ctx.finish(RULE)
 
 
